@@ -65,7 +65,7 @@ pub fn gen_cases(cfg: &RunCfg) -> Vec<Case> {
             let positions: Vec<usize> = if exhaustive { (0..rtoks.len()).collect() } else { vec![rng.below(rtoks.len())] };
             for ti in positions {
                 let t = rtoks[ti];
-                let kinds: Vec<usize> = if exhaustive { vec![0, 1, 2, 3] } else { vec![rng.below(4)] };
+                let kinds: Vec<usize> = if exhaustive { vec![0, 1, 2, 3, 4] } else { vec![rng.below(4)] };
                 for kind in kinds {
                     let first_tok = rtoks[0].start;
                     let (new_text, lower, upper, what) = match kind {
@@ -86,6 +86,12 @@ pub fn gen_cases(cfg: &RunCfg) -> Vec<Case> {
                             s.insert_str(t.start, &format!("{r} "));
                             (s, first_tok.min(t.start), None, format!("insert `{r}` before token `{}` in {label}", &text[t.start..t.end]))
                         }
+                        4 => {
+                            // a block comment that is opened in front of the token and never closed
+                            let mut s = text.clone();
+                            s.insert_str(t.start, "/* open ");
+                            (s, first_tok.min(t.start), None, format!("open a block comment before token `{}` in {label} and never close it", &text[t.start..t.end]))
+                        }
                         _ => {
                             let r = *rng.pick(&IMPOSSIBLE);
                             let mut s = text.clone();
@@ -102,9 +108,44 @@ pub fn gen_cases(cfg: &RunCfg) -> Vec<Case> {
             }
         }
     }
+    cases.extend(open_comment_family(cfg));
     cases.extend(distance_family());
     cases.extend(layout_family());
     cases
+}
+
+/// A block comment opened somewhere in the k-th assignment of the second or third module and never closed: the text
+/// up to it is well-formed, so the report must not lie before the first token of that assignment (and it names the
+/// file when the source is one).
+fn open_comment_family(cfg: &RunCfg) -> Vec<Case> {
+    let mut rng = Rng::new(cfg.seed ^ 0xC17_0C);
+    let mut out = Vec::new();
+    for set in 0..cfg.budget(40, 400) {
+        let n_mod = 1 + rng.below(3);
+        let mut text = String::new();
+        let mut regions: Vec<(usize, usize)> = Vec::new();
+        for m in 0..n_mod {
+            let n_assign = 1 + rng.below(12);
+            let picks: Vec<usize> = (0..n_assign).map(|_| rng.below(ASSIGNMENTS.len())).collect();
+            let md = build_module(&format!("Oc{set}x{m}"), &picks, 7000 + set * 10 + m, set % 2 == 1, set % 3 == 0);
+            let base = text.len();
+            for a in &md.assignments {
+                regions.push((base + a.0, base + a.1));
+            }
+            text.push_str(&md.text);
+        }
+        let toks = tokenize(&text);
+        let (rs, re) = *rng.pick(&regions);
+        let rtoks: Vec<&Tok> = toks.iter().filter(|t| t.start >= rs && t.end <= re).collect();
+        if rtoks.is_empty() {
+            continue;
+        }
+        let t = rtoks[rng.below(rtoks.len())];
+        let mut s = text.clone();
+        s.insert_str(t.start, ["/* open ", "/*", "/* a /* b */ "][set % 3]);
+        out.push(Case { text: s, lower: rtoks[0].start.min(t.start), upper: None, what: format!("open-comment: a block comment opened before token `{}` and never closed", &text[t.start..t.end]), as_file: set % 2 == 0 });
+    }
+    out
 }
 
 /// Layouts that decide how the excerpt of `contextualize` is cut: every line indented (END too), blank and
